@@ -210,6 +210,12 @@ class Report:
             "coverage": self.coverage, "assumptions": self.assumptions,
             "wall_s": round(wall, 2), "violations": len(self.violations),
         }
+        try:
+            from checks import common as _common
+            if _common.UNRESOLVED:
+                ev["coverage"]["cases_the_coq_evaluation_gave_up_on"] = len(_common.UNRESOLVED)
+        except Exception:
+            pass
         if self.notes:
             ev["coverage"]["notes"] = self.notes
         os.makedirs(EVID, exist_ok=True)
